@@ -1,13 +1,16 @@
 (* C11 -- A follower converges to the leader's data.
    Statements only.  Model: Model/Sync.v (leader.rs, lib.rs forward_api_call, follower.rs) over Model/Core.v,
    with the repairs of F10a (session-end effects mirrored) and F11 (pre-join registrations sent after the initial state).
-   PARTIAL: the history theorem covers client set / cset / delete / pdelete requests (accepted or refused, with keys
-   anywhere including $SYS) from any join point; session ends, registrations and imports are in the executable model
-   and are compared with the real cluster by the correspondence, not proved.  CAS imports are known finding F10b. *)
+   History theorems: C11_converges (client set / cset / delete / pdelete requests, accepted or refused, keys anywhere
+   including $SYS, from any join point) and C11_converges_sessions (Proofs/SyncAll.v: requests of EVERY kind except import
+   -- sessions starting and ending with their grave goods and last wills, registrations made, changed and removed,
+   subscriptions, locks -- from any join point: afterwards the follower holds the leader's user keys with the same entries
+   and versions, and the leader's registrations).  Import is known finding F10b; patterns with a wildcard as first
+   segment (F4), ill-formed patterns (F3) and the version overflow (F17) are excluded by hypothesis. *)
 From Coq Require Import List.
 Import ListNotations.
-From WB Require Import Base.Str Base.Json Model.Key Model.Store Model.Entry Model.Core Model.Codec Model.Persist Model.Sync
-  Spec.MapSpec Proofs.CoreFacts Proofs.SyncFacts.
+From WB Require Import Base.Str Base.Json Model.Key Model.Consts Model.Store Model.Entry Model.Core Model.Codec Model.Persist Model.Sync
+  Spec.MapSpec Proofs.CoreFacts Proofs.StreamAll Proofs.SyncFacts Proofs.SyncAll.
 
 (* one mirrored request: mirroring before applying, and whatever the outcome on the leader, keeps leader and follower
    in agreement on every user key (values and CAS versions) *)
@@ -34,6 +37,62 @@ Proof. exact follower_converges. Qed.
 Print Assumptions C11_converges.
 
 (* every write offered to a follower directly is refused with NotLeader and changes nothing *)
+(* ---- histories of requests of every kind (Proofs/SyncAll.v) ----
+   [cluster_run L F os]: the leader serves os one after the other, the follower applies, in channel order, everything the
+   leader sends for each (lstep: the mirrored writes, the effects of a session end, the registration changes);
+   [reg_path q]: q is $SYS/clients/<id>/graveGoods or .../lastWill; [val_at m q]: the value stored at q;
+   [adm_hist]: no import, force = false on client writes, well-formed patterns beginning with a literal segment (also
+   in the grave goods that get executed), no version overflow, no crash. *)
+Theorem C11_converges_sessions :
+  forall L os, Inv L -> RegOK L ->
+    let F := fdrain (fst (fjoin L)) (snd (fjoin L)) in
+    adm_hist L F os ->
+    let L' := fst (cluster_run L F os) in let F' := snd (cluster_run L F os) in
+    user_eq (abs L') (abs F') /\ (forall q, reg_path q -> val_at (abs F') q = val_at (abs L') q).
+Proof. exact follower_converges_sessions. Qed.
+Print Assumptions C11_converges_sessions.
+
+(* the same as an invariant of leader and follower, whatever state they start from *)
+Theorem C11_request_sim :
+  forall L F o, Rel L F -> adm_req L F o -> Rel (fst (step L o)) (fdrain F (snd (lstep L o))).
+Proof. exact request_sim. Qed.
+Print Assumptions C11_request_sim.
+
+(* a follower that joins is in that relation once it has processed the initial state and the registrations *)
+Theorem C11_join_Rel :
+  forall L, Inv L -> RegOK L -> Rel L (fdrain (fst (fjoin L)) (snd (fjoin L))).
+Proof. exact join_Rel. Qed.
+Print Assumptions C11_join_Rel.
+
+(* the registration commands of a leader step bring the follower's registrations to the leader's *)
+Theorem C11_registrations_follow :
+  forall L L' F, Inv L -> Inv L' -> Inv F -> plain_regs (abs F) -> RegOK L' ->
+    (forall q, reg_path q -> val_at (abs L) q = val_at (abs L') q -> val_at (abs F) q = val_at (abs L') q) ->
+    let F' := fdrain F (reg_changes L L') in
+    Inv F' /\ plain_regs (abs F') /\
+    (forall q, ~ reg_path q -> abs F' q = abs F q) /\
+    (forall q, reg_path q -> val_at (abs F') q = val_at (abs L') q).
+Proof. exact reg_sync. Qed.
+Print Assumptions C11_registrations_follow.
+
+(* non-vacuity: two clients register, write, one session ends (grave goods bury, the last will overrides a CAS value);
+   the follower joined before all of that *)
+Example C11_sessions_nonvacuous :
+  let gg1 := topic [s_SYS; s_clients; client_str 1; s_graveGoods] in
+  let lw1 := topic [s_SYS; s_clients; client_str 1; s_lastWill] in
+  let gg2 := topic [s_SYS; s_clients; client_str 2; s_graveGoods] in
+  let os := [OConnected 1; OConnected 2;
+             OSet 1 gg1 (JArr [JStr [103;47;35]]) false; OSet 1 lw1 (JArr [JArr [JStr [119]; JNum [49]]]) false;
+             OSet 2 gg2 (JArr [JStr [107]]) false; OSet 2 [103;47;120] JNull false; OCSet 2 [119] JNull 0 false;
+             OSubscribe 2 1 [119] false true; ODisconnected 1; OSet 2 gg2 (JArr []) false] in
+  let F := fdrain (fst (fjoin init)) (snd (fjoin init)) in
+  adm_hist init F os /\
+  abs (snd (cluster_run init F os)) [[119]] = Some (Plain (JNum [49])) /\
+  abs (snd (cluster_run init F os)) [[103]; [120]] = None /\
+  val_at (abs (snd (cluster_run init F os))) [s_SYS; s_clients; client_str 2; s_graveGoods] = Some (JArr []) /\
+  val_at (abs (snd (cluster_run init F os))) [s_SYS; s_clients; client_str 1; s_graveGoods] = None.
+Proof. vm_compute. repeat split; try discriminate; reflexivity. Qed.
+
 Theorem C11_refuses_writes :
   forall f o, follower_refuses o = true -> fstep_api f o = (f, out_res (RErr E_NotLeader)).
 Proof. exact follower_refuses_writes. Qed.
